@@ -19,7 +19,7 @@ func init() {
 		ID:      "C05",
 		Run:     runC05,
 		NeedSSA: true,
-		Level:   "Static analysis (write records of every encoder and read records of every decoder from the abstract interpreter, compared per kind; dispatcher tables against constructor codes; syntactic guard rule). Decides sibling agreement, a NECESSARY structural part of the round trip: mirror/<kind>/<field> — every receiver field the encoder writes at a fixed or symbolic offset is read back by the decoder from the same offset, with the same width and byte order, into the same field, and every field the decoder fills is one the encoder wrote at that offset (child encodings ↔ child decodings likewise, list loops by their base offset and the list they fill); trailing/<decoder> — no decoder tests the input length for equality (an element followed by others must still decode); codes/<dispatcher>/<code> — the type code each constructor stores selects, in the dispatcher that decodes that family (Parse, DecodeAction, DecodeNxAction, DecodeInstr), the kind that constructor returns; retain/<decoder>/<loop> — the element decoded in each iteration of a list loop is stored into the receiver. Not decided: equality of values (follows from the records only for fields copied verbatim); optional parts whose presence the two sides decide differently (encoder: pointer non-nil, decoder: flag bit) are compared by offset inside their guards only; packed bit fields are C09/C15's lanes rule; kinds whose Go representation is not canonical (net.IP of 4 vs 16 bytes). mirror also has skipfill:<field> — a part the encoder always writes is filled by the decoder on every accepting path (decoding into a value that was used before must not leave old contents that are then encoded again).",
+		Level:   "Static analysis (write records of every encoder and read records of every decoder from the abstract interpreter, compared per kind; dispatcher tables against constructor codes; syntactic guard rule). Decides sibling agreement, a NECESSARY structural part of the round trip: mirror/<kind>/<field> — every receiver field the encoder writes at a fixed or symbolic offset is read back by the decoder from the same offset, with the same width and byte order, into the same field, and every field the decoder fills is one the encoder wrote at that offset (child encodings ↔ child decodings likewise, list loops by their base offset and the list they fill); trailing/<decoder> — no decoder tests the input length for equality (an element followed by others must still decode); codes/<dispatcher>/<code> — the type code each constructor stores selects, in the dispatcher that decodes that family (Parse, DecodeAction, DecodeNxAction, DecodeInstr), the kind that constructor returns; retain/<decoder>/<loop> — the element decoded in each iteration of a list loop is stored into the receiver. Not decided: equality of values (follows from the records only for fields copied verbatim); optional parts whose presence the two sides decide differently (encoder: pointer non-nil, decoder: flag bit) are compared by offset inside their guards only; packed bit fields are C09/C15's lanes rule; kinds whose Go representation is not canonical (net.IP of 4 vs 16 bytes). mirror also has skipfill:<field> — a part the encoder always writes is filled by the decoder on every accepting path (decoding into a value that was used before must not leave old contents that are then encoded again). Also decided: errfail (as in C02).",
 		Assumptions: []string{
 			"constructor-established widths of fixed-size fields (reviewed table in checker/premises.go) hold for encoder-side offsets",
 			"spec/codes.json constructor→code tables",
